@@ -1,5 +1,6 @@
 import SqlframeModel.Codec.Basic
 import SqlframeModel.Impl.C08Spec
+import SqlframeModel.Impl.C08Chain
 namespace Sqlframe.Win
 open Lean
 deriving instance FromJson, ToJson for KeyForm
@@ -7,4 +8,8 @@ deriving instance FromJson, ToJson for UKey
 deriving instance FromJson, ToJson for BOp
 deriving instance FromJson, ToJson for WFn
 deriving instance FromJson, ToJson for RFn
+deriving instance FromJson, ToJson for AggK
+deriving instance FromJson, ToJson for AggItem
+deriving instance FromJson, ToJson for UItem
+deriving instance FromJson, ToJson for UStep
 end Sqlframe.Win
